@@ -322,9 +322,43 @@ def check(case):
     return r
 
 
+def grammar_words():
+    """every word the grammar of the working tree spells as a literal (keywords, type names, operators written as words)"""
+    import re
+    g = open(os.path.join(os.environ.get("VERIF_REPO", "/repo"), "compiler", "src", "grammar.pest")).read()
+    return sorted(set(re.findall(r'"([A-Za-z][A-Za-z_]*)"', g)))
+
+
+def naming_cases():
+    """a name that merely CONTAINS a word of the language (`constant`, `nilable`, `imports`, `selfish`, `printer`, `ifx`) is an
+    ordinary name: programs that use such names as variable, function, parameter, loop variable and captured variable run like
+    the same programs with any other name"""
+    V = lambda n: ("var", n)
+    words = grammar_words()
+    out, seen = [], set()
+    for w in words:
+        for name in (w + "x", w + "_", w + "1", w + "s", w + "ed", "x" + w, "_" + w, w + "_" + w, w + w, w.upper(), w.capitalize()):
+            import re
+            if name in words or name in seen or re.fullmatch(r"B\d+|Self|self", name):
+                continue
+            seen.add(name)
+            p2 = name + "2"
+            stmts = [("decl", name, None, I(5), ()),
+                     ("print", ("bin", "+", V(name), I(1))),
+                     ("decl", name, None, ("bin", "*", V(name), I(2)), ()),
+                     ("decl", p2, None, ("fn", [(name, "int")], "int", [("return", ("bin", "+", V(name), I(1)))]), ()),
+                     ("print", ("call", V(p2), [V(name)])),
+                     ("from", I(0), I(2), False, None, name + "3", [("print", V(name + "3"))]),
+                     ("decl", "bump", None, ("fn", [], None, [("decl", name, None, ("bin", "+", V(name), I(1)), ("modify",))]), ()),
+                     ("expr", ("call", V("bump"), [])),
+                     ("if", ("bin", "==", V(name), I(11)), [("print", V(name))], [("print", I(0))])]
+            out.append({"stmts": stmts, "labels": ["naming:" + w], "nt": True})
+    return out
+
+
 def enumerated(tier, seed):
     from .. import skeletons
-    cases = []
+    cases = naming_cases()
     for desc, stmts in skeletons.all_skeletons(2 if tier == "quick" else 3):
         labels = ["skel:loop=" + desc["loop"], "skel:exit=" + desc["exit"] + ("@%d" % len(desc["wraps"])),
                   "skel:" + ("fn" if desc["in_fn"] else "module")]
